@@ -110,7 +110,7 @@ def main():
     for idx, ob in enumerate(spec["obs"]):
         if not claim(spec["claim_dir"], idx):
             continue
-        CURRENT.update(ob=ob, t0=time.time(), limit=float(ob["timeout"]) * 3 * spec.get("load", 1.0) + 60)
+        CURRENT.update(ob=ob, t0=time.time(), limit=float(ob["timeout"]) * 1.5 * spec.get("load", 1.0) + 60)
         res = {"oid": ob["oid"], "fn": ob["fn"]}
         stats = collections.Counter()
         c0, s0 = SOLVER["checks"], SOLVER["secs"]
